@@ -101,6 +101,10 @@ def job_seed(w, name, d):
         if rc == 1:
             caught.append(p)
     w.reset()
+    if m.get("not_caught"):
+        # recorded honestly as outside the reach of the present rules (see meta.json / DESIGN 7.4); a check that starts catching
+        # it is welcome, a miss is not a regression
+        return True, "seed %s: recorded as not caught (%s)" % (name, "now caught by " + " ".join(caught) if caught else "still not caught")
     if m.get("neutralised"):
         return True, "seed %s: neutralised by a later fix (%s)" % (name, "caught by " + " ".join(caught) if caught else "not caught, as expected")
     return bool(caught), "seed %s: %s" % (name, ("caught by " + " ".join(caught)) if caught else "MISSED (checked %s)" % " ".join(props))
